@@ -96,7 +96,10 @@ fn run_c13(args: Args) {
         } else {
             vec![]
         };
-        let cx = c13::Cx { vectors, ffi_ok };
+        // every byte of encodings up to 512 bytes (512 sampled positions beyond that);
+        // the sanitizer lanes sample 96 positions per encoding
+        let max_positions = if matches!(args.lane.as_str(), "asan" | "valgrind" | "miri") { 96 } else { 512 };
+        let cx = c13::Cx { vectors, ffi_ok, max_positions };
         let nt = reg.len() as u64;
         // one "round" = every registry type once
         let rounds = args.cases(240, 1600);
@@ -204,9 +207,12 @@ fn worker_loop(args: &Args, status: c14::Status, ckpt: Option<&str>) -> Report {
         selftest_abort_case: args.get("selftest-abort-case").and_then(|s| s.parse().ok()),
         case: 0,
         c: args.get("c").and_then(|s| s.parse().ok()).unwrap_or(c14::C_BYTES_PER_INPUT_BYTE),
+        // ASan is only 2-3x slower on plain code, but every untrusted Program parse makes
+        // clvmr reserve 1 MiB, which under ASan is an mmap + shadow poisoning per decode
+        // attempt (measured ~200x slower cases): same shortened loops as valgrind
         light: match args.lane.as_str() {
             "miri" => 2,
-            "valgrind" => 1,
+            "valgrind" | "asan" => 1,
             _ => 0,
         },
     };
